@@ -10,6 +10,7 @@ open Proto Store StoreIO
       sortBy c n perm | copy c N|keep | setDtype c n dt | convert c dt:dt,.. exc | indices c
       new name:dt:vals+name:dt:vals
       appendFieldFrom c n d m | setItemFrom c n d m | newShared d m     (the array handed in IS column m of container d)
+      poke d m k v     (the caller writes conts[d][m][k] = v into the array __getitem__ handed out)
     answer:  H=<res> T=<res> | <heap containers ;-separated> | <tables ;-separated>
 -/
 
@@ -30,6 +31,7 @@ def answer1 (st : DState1) (line : String) : DState1 × String :=
       | ["appendFieldFrom", c, n, d, m] => some (.appendFieldFrom (pN c) (pN n) (pN d) (pN m))
       | ["setItemFrom", c, n, d, m] => some (.setItemFrom (pN c) (pN n) (pN d) (pN m))
       | ["newShared", d, m] => some (.newShared (pN d) (pN m))
+      | ["poke", d, m, k, v] => some (.poke (pN d) (pN m) (pN k) (pI v))
       | _ => (pOp toks).map XOp.base
     match xop with
     | none => (st, "bad-op")
